@@ -8,7 +8,7 @@ import sys
 
 HERE = os.path.dirname(os.path.dirname(os.path.abspath(__file__)))
 BEGIN, END = "<!-- seeded-table:begin -->", "<!-- seeded-table:end -->"
-THOROUGH_ONLY = {"C11-sigmoid-reciprocal-form-overflow": "thorough tier only (`Sigmoid/F/finite`, exact query of about 10 min)"}
+THOROUGH_ONLY = {"C11-sigmoid-reciprocal-height-log-zero": "thorough tier only, and only on an idle machine (`Sigmoid/F/finite/exact`, a query of about 10 min; under load it ends inconclusive, which the check reports as such)"}
 
 
 def main():
